@@ -143,7 +143,7 @@ type exGen struct {
 	lbl       int
 }
 
-var exSpecialNames = []string{"a/b", "c~d", "e f", "g%h"}
+var exSpecialNames = []string{"a/b", "c~d", "e f", "g%h", "D0", "D1", "E F"} // incl. names differing from others only by letter case
 var exLeafTypes = []string{"string", "integer", "boolean", "number"}
 
 func (g *exGen) label(p string) string {
@@ -374,6 +374,12 @@ func exRandomGraph(r *rng, o exGenOpts) *exGraph {
 	root := "file://" + p + "/r/" + rootName
 	host := "h" + strings.Trim(strings.ReplaceAll(p, "/", ""), " ")
 	locs := []string{"file://" + p + "/r/" + sameName, "file://" + p + "/r/a/o.json", "file://" + p + "/r/a/b/p.json", "file://" + p + "/up.json", "file://" + p + "/q/x.json"}
+	if !prefixSibling && r.chance(1, 6) {
+		// sibling FOLDERS whose names are string prefixes of one another (api/ and api-common/): handled correctly by
+		// the library today (unlike prefix-related document names), so they must stay that way
+		root = "file://" + p + "/r/api/root.json"
+		locs = []string{"file://" + p + "/r/api-common/o.json", "file://" + p + "/r/api/a/o.json", "file://" + p + "/r/api-common/b/p.json", "file://" + p + "/r/ap/up.json", "file://" + p + "/r/api2/x.json"}
+	}
 	maxDocs := o.MaxDocs
 	if maxDocs == 0 {
 		maxDocs = 4
@@ -566,7 +572,8 @@ func exRandomGraph(r *rng, o exGenOpts) *exGraph {
 		l.m["$ref"] = ref["$ref"]
 	}
 	if o.IDs {
-		ids := []string{"http://ids" + host + "/x/y.json", "idfile.json", "sub/", "#anchor", "sub/idfile.json"}
+		ids := []string{"http://ids" + host + "/x/y.json", "idfile.json", "sub/", "#anchor", "sub/idfile.json",
+			"HTTP://IDS" + strings.ToUpper(host) + ":80/x/y.json", "http://ids" + host + "//x/y.json"} // incl. absolute ids in non-canonical spelling
 		for k := 0; k <= r.intn(2); k++ {
 			d := g.defs[r.intn(len(g.defs))]
 			if _, isRef := d.tree["$ref"]; !isRef {
